@@ -848,8 +848,18 @@ impl MessageReceiver {
         }
       }
 
-      ReaderSubmessage::NackFrag(_, _) => {
-        // TODO: Implement NackFrag handling
+      ReaderSubmessage::NackFrag(nackfrag, _) => {
+        // Forward to the Writer the same way as AckNack. Must not block, see above.
+        match self
+          .acknack_sender
+          .try_send((self.source_guid_prefix, AckSubmessage::NackFrag(nackfrag)))
+        {
+          Ok(_) => (),
+          Err(TrySendError::Full(_)) => {
+            info!("AckNack pipe full. Looks like I am very busy. Discarding submessage.");
+          }
+          Err(e) => warn!("AckNack pipe fail: {:?}", e),
+        }
       }
     }
   }
